@@ -14,7 +14,7 @@ echo "---- placing demo files"
 for f in $D/*.go; do
   [ -e "$f" ] || continue
   b=$(basename $f)
-  dest=$(grep -o "[A-Za-z0-9_./-]*$b" $D/demo_path.txt | grep / | grep -v '^/tmp' | head -1)
+  dest=$(grep -o "[A-Za-z0-9_./-]*$b" $D/demo_path.txt | grep / | grep -v '^/tmp' | grep -v '^_out' | head -1)
   [ -z "$dest" ] && dest=$(grep -o "[A-Za-z0-9_./-]*/$b" $D/demo_path.txt | sed 's#^/tmp/wt-[A-Za-z0-9-]*/##' | head -1)
   echo "  $b -> $dest"
   mkdir -p $WT/$(dirname $dest); cp $f $WT/$dest
